@@ -59,6 +59,7 @@ pub fn fam_for(tier: Tier, prop: &str) -> Vec<CaseSpec> {
             }
         }
     }
+    v.extend(weight_pattern_cases());
     // kinematic units: every 9th configuration again with all momenta and masses x 2^-30, every 9th x 2^24
     let n0 = v.len();
     for i in 0..n0 {
